@@ -27,7 +27,7 @@ Definition cinv (vol : bool) (c : cell) (last : option val) : Prop :=
 Lemma load_cell_inv vol c v c' last : cinv vol c last -> load_cell vol c v = Some c' -> cinv vol c' last.
 Proof.
   intros (J1 & J2 & J3) H. unfold load_cell in H.
-  destruct (opt_val_eqb (cdb c) v); [injection H as <-; repeat split; auto; apply J2; auto|].
+  destruct (opt_val_eqb (cdb c) v); [injection H as <-; split; [exact J1 | split; [exact J2 | exact J3]]|].
   destruct (negb vol && rbit c) eqn:E; [discriminate|]. injection H as <-.
   split; [|split]; cbn.
   - intros W. rewrite W. now rewrite andb_false_r.
@@ -55,16 +55,19 @@ Proof.
       - injection Hc as <-. apply I.
       - eapply load_cell_inv; [apply I | exact Hc]. }
     rewrite Er. destruct r as [c|]; [|split; [exact I | exact T]].
-    specialize (Hr c eq_refl). destruct Hr as (J1 & J2 & J3).
+    specialize (Hr c eq_refl).
     destruct (cval c) as [v|] eqn:Cv; [|split; [exact I | exact T]].
+    destruct Hr as (J1 & J2 & J3).
     split.
     + intros b. cbn [cells trace last_about]. destruct (Nat.eqb a b) eqn:Eab.
       * apply Nat.eqb_eq in Eab. subst b. rewrite upd_same.
         destruct (wbit c || vol a) eqn:WV.
         -- split; [exact J1 | split; [|exact J3]]. intros V v' L. injection L as <-. split; [exact Cv|].
            intros W. rewrite W, V in WV. discriminate.
-        -- apply orb_false_iff in WV. destruct WV as [W V]. split; [|split]; cbn; auto.
-           intros _ v' L. injection L as <-. split; auto.
+        -- apply orb_false_iff in WV. destruct WV as [W V]. split; [|split]; cbn.
+           ++ intros W'. rewrite <- Cv. now apply J1.
+           ++ intros _ v' L. injection L as <-. split; [first [exact Cv | reflexivity] | reflexivity].
+           ++ intros _. exact V.
       * apply Nat.eqb_neq in Eab. rewrite upd_other by auto. apply I.
     + cbn [trace trace_ok]. split; [|exact T]. intros V v' L.
       destruct (J2 V v' L) as [C _]. congruence.
@@ -172,7 +175,7 @@ Lemma union_In m : forall l j, In j (union l m) <-> In j l \/ In j m.
 Proof.
   unfold union. induction m as [|i m IH]; intros l j; cbn.
   - tauto.
-  - rewrite IH, add_In. tauto.
+  - rewrite IH, add_In. intuition (subst; auto).
 Qed.
 
 Lemma subset_In l m : subset l m = true <-> forall i, In i l -> In i m.
@@ -185,7 +188,7 @@ Qed.
 Lemma cload_cobs m2m s db : cobs (cload m2m s db) = cobs s.
 Proof.
   unfold cload. destruct (full s); [reflexivity|]. destruct m2m.
-  - destruct (subset (items s) db); reflexivity.
+  - destruct (subset (items s) db); [destruct (existsb _ db)|]; reflexivity.
   - assert (forall l s0, cobs (fold_left (fun acc i => if cfailed acc then acc else item_reload acc i true) l s0) = cobs s0) as H.
     { induction l as [|i l IH]; intros s0; cbn; [reflexivity|]. rewrite IH. destruct (cfailed s0); [reflexivity|].
       unfold item_reload. destruct (Bool.eqb _ _); [reflexivity|]. destruct (mem i (pinned s0)); [reflexivity|].
@@ -197,7 +200,7 @@ Lemma cload_full m2m s db : cfailed (cload m2m s db) = false -> cfailed s = fals
   full (cload m2m s db) = true /\ (full s = true -> cload m2m s db = s).
 Proof.
   intros F F0. unfold cload in *. destruct (full s) eqn:E; [auto|]. split; [|discriminate]. destruct m2m.
-  - destruct (subset (items s) db); [reflexivity | cbn in F; discriminate].
+  - destruct (subset (items s) db); [destruct (existsb _ db); [cbn in F; discriminate | reflexivity] | cbn in F; discriminate].
   - destruct (cfailed (fold_left _ db s)) eqn:E2; [congruence | reflexivity].
 Qed.
 
@@ -318,9 +321,10 @@ Qed.
 Lemma frozen_run evs : forall s, frozen s ->
   exists new, cobs (crun false s evs) = new ++ cobs s /\ Forall (fun o => o = items s) new.
 Proof.
-  induction evs as [|e r IH]; intros s Fz; cbn.
+  induction evs as [|e r IH]; intros s Fz.
   - exists []. split; [reflexivity | constructor].
-  - destruct (cstep_obs_frozen s e Fz) as [n1 [E1 A1]].
+  - change (crun false s (e :: r)) with (crun false (cstep false s e) r).
+    destruct (cstep_obs_frozen s e Fz) as [n1 [E1 A1]].
     destruct (frozen_step s e Fz) as [X|[Fz' It]].
     + rewrite crun_failed by exact X. exists n1. auto.
     + destruct (IH _ Fz') as [n2 [E2 A2]]. exists (n2 ++ n1). split.
